@@ -313,7 +313,7 @@ def corpus():
 
 def gen(rng, tier):
     cases = []
-    n = 500 if tier == "quick" else 12000
+    n = 350 if tier == "quick" else 3500
     for v in BOUNDARY_INTS + [2 ** (7 * k) + d for k in range(1, 10) for d in (-1, 0, 1)]:
         if v >= 0:
             cases.append({"kind": "b128", "n": v})
